@@ -345,10 +345,18 @@ fn do_map_update(
     f: KValue,
     vm: &mut KotoVm,
 ) -> Result<KValue> {
-    if !map.data().contains_key(&key) {
-        map.data_mut().insert(key.clone(), default);
-    }
-    let value = map.get(&key).unwrap();
+    // The entry is looked up, and inserted if necessary, with a single borrow,
+    // the map could otherwise be modified in between by another thread.
+    let value = {
+        let mut data = map.data_mut();
+        match data.get(&key) {
+            Some(value) => value.clone(),
+            None => {
+                data.insert(key.clone(), default.clone());
+                default
+            }
+        }
+    };
     match vm.call_function(f, value) {
         Ok(new_value) => {
             map.data_mut().insert(key, new_value.clone());
